@@ -2,8 +2,9 @@
 """tools/collect_seeded.py <Cxx> <a|b> "<needs>" "<detected_by>" : copy a confirmed seeded change into /verif/seeded/<Cxx>-<x>/"""
 import json, os, shutil, sys
 pid, x, needs, detected = sys.argv[1:5]
+dx = sys.argv[5] if len(sys.argv) > 5 else x  # name of the kept variant (second rounds: c, d)
 src = '/tmp/mut/%s/_out' % pid
-dst = '/verif/seeded/%s-%s' % (pid, x)
+dst = '/verif/seeded/%s-%s' % (pid, dx)
 os.makedirs(dst, exist_ok=True)
 shutil.copy(os.path.join(src, x + '.diff'), os.path.join(dst, 'patch.diff'))
 d = os.path.join(dst, 'demo')
@@ -14,7 +15,7 @@ if os.path.exists(os.path.join(src, 'NOTES.md')):
 conf = json.load(open(os.path.join(src, 'confirm_%s.json' % x)))
 prop = [json.loads(l) for l in open('/verif/properties.jsonl') if json.loads(l)['id'] == pid][0]
 meta = {
-    "property": pid, "variant": x, "title": prop['title'],
+    "property": pid, "variant": dx, "title": prop['title'],
     "needs_to_manifest": needs,
     "confirmed_in_scratch_worktree": {
         "what_i_ran": "tools/confirm_mut.sh %s %s (git apply patch; go1.26.8 build ./...; demo with and without the patch; go1.26.8 test -vet=off -count=1 ./... with the patch and without the demo)" % (pid, x),
@@ -25,7 +26,7 @@ meta = {
         "existing_test_failures": conf.get('test_failures'),
     },
     "detected_by": detected,
-    "how_checked": "tools/trymut.sh seeded/%s-%s/patch.diff <checks> (git -C /repo apply, ./check <id> --tier quick, git checkout)" % (pid, x),
+    "how_checked": "tools/trymut.sh seeded/%s-%s/patch.diff <checks> (git -C /repo apply, ./check <id> --tier quick, git checkout)" % (pid, dx),
 }
 json.dump(meta, open(os.path.join(dst, 'meta.json'), 'w'), indent=1)
 print(dst)
